@@ -1,13 +1,16 @@
 mod crash;
 mod decode;
 mod exec;
+mod fixture;
 mod gen;
 mod gen2;
 mod hist;
 mod metric;
 mod nodeids;
+mod numeric;
 mod search;
 mod txn;
+mod upgrade;
 
 use std::collections::BTreeSet;
 use std::io::Write;
@@ -273,6 +276,49 @@ fn main() {
             std::fs::write(format!("{out}.hist.json"), json!((0..count).map(|k| json!({"label": format!("txn:{}", seed.wrapping_mul(1_000_003).wrapping_add(k as u64)), "indexes": [], "ops": []})).collect::<Vec<_>>()).to_string()).unwrap();
             println!("{}", json!({"histories": count, "events": lines.len(), "observations": observes, "builds_ok": 0, "builds_err": 0, "panics": 0,
                 "nontrivial_builds": 0, "distinct_forests": observes, "first_no": first_no, "threads": 0}));
+        }
+        "fixture-gen" => {
+            let out = arg(&args, "--out").unwrap_or("/verif/fixtures".into());
+            fixture::generate(&out);
+            println!("fixtures written to {out}");
+        }
+        "fixture-check" => {
+            let dir = arg(&args, "--dir").unwrap_or("/verif/fixtures".into());
+            let seed: u64 = arg(&args, "--seed").map(|s| s.parse().unwrap()).unwrap_or(1);
+            let out = arg(&args, "--out").expect("--out prefix");
+            let first_no: usize = arg(&args, "--first").map(|s| s.parse().unwrap()).unwrap_or(0);
+            let mut lines = Vec::new();
+            let (n, hs) = fixture::check(&dir, seed, first_no, &mut lines);
+            write_trace(&format!("{out}.ndjson"), &lines);
+            std::fs::write(format!("{out}.hist.json"), serde_json::to_string(&hs).unwrap()).unwrap();
+            println!("{}", json!({"histories": n, "events": lines.len(), "builds_ok": 0, "builds_err": 0, "panics": 0,
+                "nontrivial_builds": 0, "distinct_forests": n, "first_no": first_no, "threads": 1}));
+        }
+        "upgrade" => {
+            let seed: u64 = arg(&args, "--seed").map(|s| s.parse().unwrap()).unwrap_or(1);
+            let count: usize = arg(&args, "--count").map(|s| s.parse().unwrap()).unwrap_or(10);
+            let out = arg(&args, "--out").expect("--out prefix");
+            let first_no: usize = arg(&args, "--first").map(|s| s.parse().unwrap()).unwrap_or(0);
+            let mut lines = Vec::new();
+            let n = upgrade::run(seed, count, first_no, &mut lines);
+            write_trace(&format!("{out}.ndjson"), &lines);
+            std::fs::write(format!("{out}.hist.json"), "[]").unwrap();
+            println!("{}", json!({"histories": n, "events": lines.len(), "builds_ok": 0, "builds_err": 0, "panics": 0,
+                "nontrivial_builds": 0, "distinct_forests": n, "first_no": first_no, "threads": 1}));
+        }
+        "numeric" => {
+            let kind = arg(&args, "--kind").expect("--kind bq|kernel");
+            let seed: u64 = arg(&args, "--seed").map(|s| s.parse().unwrap()).unwrap_or(1);
+            let out = arg(&args, "--out").expect("--out prefix");
+            let thorough = args.iter().any(|a| a == "--thorough");
+            let mut lines = Vec::new();
+            let n = if kind == "bq" { numeric::bq_cases(seed, thorough, &mut lines) } else { numeric::kernel_cases(seed, thorough, &mut lines) };
+            let cases: usize = lines.iter().map(|e| e.get("cases").or(e.get("conv")).or(e.get("items")).and_then(|c| c.as_array()).map(|a| a.len()).unwrap_or(0)
+                + e.get("pairs").and_then(|c| c.as_array()).map(|a| a.len()).unwrap_or(0)).sum();
+            write_trace(&format!("{out}.ndjson"), &lines);
+            std::fs::write(format!("{out}.hist.json"), "[]").unwrap();
+            println!("{}", json!({"histories": n, "events": cases, "builds_ok": 0, "builds_err": 0, "panics": 0,
+                "nontrivial_builds": 0, "distinct_forests": cases, "first_no": 0, "threads": 1}));
         }
         "replay" => {
             let file = arg(&args, "--hist").expect("--hist file");
